@@ -627,6 +627,9 @@ func runC17(out, tier string, seed int64) {
 			c.sec, c.ns = randInstant(rng, spi)
 		}
 		c.off = zonePool[rng.Intn(len(zonePool))]
+		if i < 2 { // the first instant of year 1 exactly (the zero time.Time), in two zones
+			c.sec, c.ns = year1Sec, 0
+		}
 		t := mkTime(c.sec, c.ns, c.off)
 		ok0, ok1 := false, false
 		_, o, fin := r.run("RETURN @d", map[string]interface{}{"d": t})
